@@ -25,7 +25,7 @@ TIERS = {
     'thorough': dict(shards=16, cases=20000, watchdog_s=7000),
 }
 RULE = ('case = frame (1-4 columns, 1-60 rows, plain field names) + boundary-derived constraint set + epsilon + option '
-        'subset + output format + stale-file history; 2 runs of tdda per case (verify, detect). Non-trivial = at least '
+        'subset + output format + stale-file history + index labels {default, permuted, offset, reversed, repeated}; 2 runs of tdda per case (verify, detect). Non-trivial = at least '
         'one constraint failed and its record-level meaning is documented; distinct = fingerprint.')
 ASSUMPTIONS = [
     'record-level flags are judged only for failing constraints whose record-level meaning is documented (bounds of the same family as the field, etc.); a min/max bound incompatible with the field type flags every record and is left unspecified',
